@@ -13,6 +13,7 @@ CONSTANTS
   HsMax = 2
   Retries = 2
   JamLen = 3
+  KeepHistory = TRUE
 INVARIANT HistoryOK
 VIEW NoHistory
 CHECK_DEADLOCK FALSE
